@@ -28,7 +28,7 @@ import (
 )
 
 type op struct {
-	K string `json:"k"`           // servestart | accept | acceptheld | releasenew | tick | send | sendidle | sendheld | release | holdtop | releasetop | finish | clientclose | shutdown | expire
+	K string `json:"k"`           // servestart | accept | acceptheld | releasenew | tick | hijack | timeout | send | sendidle | sendheld | release | holdtop | releasetop | finish | clientclose | shutdown | expire
 	C int    `json:"c,omitempty"` // index into the candidates (mod their number)
 	N int    `json:"n,omitempty"` // accept: requests already sent
 	B bool   `json:"b,omitempty"` // finish: answer with Connection: close
@@ -38,6 +38,8 @@ type desc struct {
 	Class           string `json:"class"`
 	Deadlines       bool   `json:"deadlines,omitempty"`
 	CloseOnShutdown bool   `json:"cos,omitempty"`
+	RMU             bool   `json:"rmu,omitempty"`   // Server.ReduceMemoryUsage
+	Plain           bool   `json:"plain,omitempty"` // call Shutdown() instead of ShutdownWithContext (no expiry possible)
 	Ops             []op   `json:"ops"`
 }
 
@@ -144,7 +146,7 @@ func (c *sconn) get(f func() bool) bool {
 func (c *sconn) responses() int {
 	c.mu.Lock()
 	defer c.mu.Unlock()
-	return bytes.Count(c.out, []byte("HTTP/1.1 200"))
+	return bytes.Count(c.out, []byte("HTTP/1.1 ")) // status lines: every response the harness lets the server write is small and has no such bytes in its body
 }
 
 func (c *sconn) LocalAddr() net.Addr { return &net.TCPAddr{IP: net.IPv4(127, 0, 0, 1), Port: 80} }
@@ -261,7 +263,8 @@ type crec struct {
 	loop       int
 	started    atomic.Int32
 	inHandler  atomic.Bool
-	cmd        chan bool // handler: answer (true = Connection: close)
+	cmd        chan int // handler: 0 answer keep-alive, 1 answer with Connection: close, 2 hijack, 3 ctx.TimeoutError (the handler is "abandoned")
+	hjRel      chan struct{}
 	sent       int
 	clientGone bool
 	heldRead   chan struct{}
@@ -335,10 +338,32 @@ func (rn *runner) handler(ctx *fasthttp.RequestCtx) {
 			r.doneMissed.Add(1)
 		}
 	}
-	if cl {
-		ctx.SetConnectionClose()
+	// ctx.Err() must agree with Done()
+	if ch != nil {
+		select {
+		case <-ch:
+			if ctx.Err() == nil {
+				r.doneMissed.Add(1)
+			}
+		default:
+			if ctx.Err() != nil {
+				r.doneMissed.Add(1)
+			}
+		}
 	}
-	ctx.SetBodyString("ok")
+	switch cl {
+	case 1:
+		ctx.SetConnectionClose()
+		ctx.SetBodyString("ok")
+	case 2:
+		rel := r.hjRel
+		ctx.Hijack(func(c net.Conn) { <-rel })
+		ctx.SetBodyString("ok")
+	case 3:
+		ctx.TimeoutError("late")
+	default:
+		ctx.SetBodyString("ok")
+	}
 	r.mu.Lock()
 	r.haveDone = false
 	r.mu.Unlock()
@@ -532,7 +557,7 @@ func (rn *runner) do(o op) {
 		}
 		k := ks[o.C%len(ks)]
 		id := len(rn.conns)
-		r := &crec{id: id, c: newConn(id), loop: k, cmd: make(chan bool, 1)}
+		r := &crec{id: id, c: newConn(id), loop: k, cmd: make(chan int, 1), hjRel: make(chan struct{})}
 		ops := []string{"LAccept " + n(k)}
 		for i := 0; i < o.N; i++ {
 			r.c.feed(reqOf(id))
@@ -660,9 +685,31 @@ func (rn *runner) do(o op) {
 		if r == nil {
 			return
 		}
-		r.cmd <- o.B
+		c := 0
+		if o.B {
+			c = 1
+		}
+		r.cmd <- c
 		rn.rest(t0)
 		rn.emit([]string{"LHandlerEnd " + n(r.id), fmt.Sprintf("LWrite %s %s", n(r.id), hlib.Bool(o.B))})
+	case "hijack":
+		// the handler hijacks the connection: the response is flushed, the hijack handler runs on (not waited for by Shutdown), the serve loop leaves
+		r := rn.pick(func(r *crec) bool { return r.inHandler.Load() }, o.C)
+		if r == nil {
+			return
+		}
+		r.cmd <- 2
+		rn.rest(t0)
+		rn.emit([]string{"LHijack " + n(r.id), fmt.Sprintf("LWrite %s false", n(r.id))})
+	case "timeout":
+		// the handler gives up with ctx.TimeoutError: the loop answers with the timeout response and goes on (TimeoutHandler's abandoned handler)
+		r := rn.pick(func(r *crec) bool { return r.inHandler.Load() }, o.C)
+		if r == nil {
+			return
+		}
+		r.cmd <- 3
+		rn.rest(t0)
+		rn.emit([]string{"LAbandon " + n(r.id), fmt.Sprintf("LWrite %s false", n(r.id))})
 	case "clientclose":
 		r := rn.pick(func(r *crec) bool { return !r.clientGone }, o.C)
 		if r == nil {
@@ -699,7 +746,12 @@ func (rn *runner) do(o op) {
 		rn.sdState.Store(1)
 		rn.sdAt = time.Now()
 		go func() {
-			err := rn.s.ShutdownWithContext(ctx)
+			var err error
+			if rn.d.Plain {
+				err = rn.s.Shutdown()
+			} else {
+				err = rn.s.ShutdownWithContext(ctx)
+			}
 			if err == nil {
 				rn.sdState.Store(2)
 			} else {
@@ -715,7 +767,7 @@ func (rn *runner) do(o op) {
 		rn.rest(t0)
 		rn.emit([]string{"LSetStop"})
 	case "expire":
-		if rn.sdState.Load() != 1 {
+		if rn.sdState.Load() != 1 || rn.d.Plain {
 			return
 		}
 		rn.cancel()
@@ -729,7 +781,7 @@ func (rn *runner) do(o op) {
 
 func runCase(d desc) hlib.Case {
 	rn := &runner{d: d, kinds: map[string]int{}}
-	rn.s = &fasthttp.Server{Handler: rn.handler, Logger: nopLogger{}, CloseOnShutdown: d.CloseOnShutdown, NoDefaultServerHeader: true,
+	rn.s = &fasthttp.Server{Handler: rn.handler, Logger: nopLogger{}, CloseOnShutdown: d.CloseOnShutdown, ReduceMemoryUsage: d.RMU, NoDefaultServerHeader: true,
 		ConnState: func(c net.Conn, st fasthttp.ConnState) {
 			if sc, ok := c.(*sconn); ok && st == fasthttp.StateNew {
 				sc.mu.Lock()
@@ -772,7 +824,7 @@ func runCase(d desc) hlib.Case {
 		res[i] = fmt.Sprintf("(mkCRes %s %s %s %s)", hlib.Bool(r.clientGone), hlib.Bool(r.idleAtSd), hlib.Bool(r.closedPass), hlib.Z(int64(r.doneMissed.Load())))
 	}
 	rn.noteSd()
-	coq := fmt.Sprintf("(CRun (mkCfg %s %s) %s %s %s)", hlib.Bool(d.Deadlines), hlib.Bool(d.CloseOnShutdown), hlib.Bool(rn.everFailed), hlib.List(rn.blocks), hlib.List(res))
+	coq := fmt.Sprintf("(CRun (mkCfg %s %s %s) %s %s %s)", hlib.Bool(d.Deadlines), hlib.Bool(d.CloseOnShutdown), hlib.Bool(d.RMU), hlib.Bool(rn.everFailed), hlib.List(rn.blocks), hlib.List(res))
 	// cleanup
 	if rn.cancel != nil {
 		rn.cancel()
@@ -790,8 +842,9 @@ func runCase(d desc) hlib.Case {
 		if r.heldNew != nil {
 			close(r.heldNew)
 		}
+		close(r.hjRel)
 		select {
-		case r.cmd <- true:
+		case r.cmd <- 1:
 		default:
 		}
 		r.c.clientClose()
@@ -805,7 +858,7 @@ func runCase(d desc) hlib.Case {
 		kind += "-stuck"
 	}
 	ks := hlib.SortedKeys(rn.kinds)
-	sig := fmt.Sprintf("%s-d%v-c%v-sd%d-%s", d.Class, d.Deadlines, d.CloseOnShutdown, rn.sdState.Load(), strings.Join(ks, ","))
+	sig := fmt.Sprintf("%s-d%v-c%v-m%v-p%v-sd%d-%s", d.Class, d.Deadlines, d.CloseOnShutdown, d.RMU, d.Plain, rn.sdState.Load(), strings.Join(ks, ","))
 	return hlib.Case{Coq: coq, Key: key, Sig: sig, Kind: kind, Size: len(rn.blocks)}
 }
 
@@ -862,6 +915,21 @@ func corpus() []desc {
 		{Class: "fresh", Ops: ops("servestart accept:1 accept:0 accept:0 tick sendheld shutdown release finish")},
 		{Class: "fresh", Ops: ops("servestart accept:0 sendheld shutdown release finish")},
 		{Class: "fresh", Ops: ops("servestart accept:0 accept:0 tick shutdown")},
+		// ReduceMemoryUsage: another read path for the first byte, the writer is flushed after every response
+		{Class: "pipelined", RMU: true, Ops: ops("servestart accept:2 shutdown finish")},
+		{Class: "pipelined", RMU: true, Ops: ops("servestart accept:3 finish shutdown finish")},
+		{Class: "basic", RMU: true, Deadlines: true, Ops: ops("servestart accept:1 finish send accept:0 shutdown finish")},
+		{Class: "heldread", RMU: true, Ops: ops("servestart accept:1 finish sendheld shutdown release")},
+		{Class: "pipetop", RMU: true, Deadlines: true, Ops: ops("servestart accept:2 holdtop finish shutdown releasetop")},
+		{Class: "fresh", RMU: true, Ops: ops("servestart accept:0 tick sendheld shutdown release")},
+		// hijack handlers and handlers abandoned through TimeoutError are not waited for; the responses written before are delivered
+		{Class: "hijack", Ops: ops("servestart accept:1 accept:1 hijack shutdown finish")},
+		{Class: "hijack", Plain: true, Ops: ops("servestart accept:1 shutdown hijack")},
+		{Class: "hijack", Deadlines: true, Ops: ops("servestart accept:2 hijack accept:1 shutdown finish")},
+		{Class: "timeout", Ops: ops("servestart accept:1 timeout shutdown")},
+		{Class: "timeout", Plain: true, Ops: ops("servestart accept:1 accept:1 shutdown timeout finish")},
+		{Class: "timeout", Ops: ops("servestart accept:2 timeout shutdown finish")},
+		{Class: "timeout", CloseOnShutdown: true, Ops: ops("servestart accept:1 timeout send shutdown timeout")},
 		// the context expires while a handler runs: an error is returned, the stop flag is reset, the connection goes on
 		{Class: "expire", Ops: ops("servestart accept:1 shutdown expire finish send finish:close")},
 		// clients that go away
@@ -891,8 +959,8 @@ func corpus() []desc {
 }
 
 func gen(r *rand.Rand, i int) desc {
-	class := hlib.Pick(r, []string{"basic", "basic", "basic", "client", "expire", "holdtop", "heldread", "pipelined", "pipetop", "heldnew", "reuse", "reuse", "fresh"})
-	d := desc{Class: class, Deadlines: r.Intn(3) == 0, CloseOnShutdown: r.Intn(4) == 0}
+	class := hlib.Pick(r, []string{"basic", "basic", "basic", "client", "expire", "holdtop", "heldread", "pipelined", "pipetop", "heldnew", "reuse", "reuse", "fresh", "hijack", "timeout"})
+	d := desc{Class: class, Deadlines: r.Intn(3) == 0, CloseOnShutdown: r.Intn(4) == 0, Plain: class != "expire" && class != "reuse" && r.Intn(3) == 0, RMU: r.Intn(4) == 0}
 	if class == "holdtop" || class == "pipetop" {
 		d.Deadlines = true
 	}
@@ -931,6 +999,10 @@ func gen(r *rand.Rand, i int) desc {
 			}
 		case x < 85:
 			switch class {
+			case "hijack":
+				d.Ops = append(d.Ops, op{K: "hijack", C: r.Intn(4)})
+			case "timeout":
+				d.Ops = append(d.Ops, op{K: "timeout", C: r.Intn(4)})
 			case "client":
 				d.Ops = append(d.Ops, op{K: "clientclose", C: r.Intn(4)})
 			case "holdtop", "pipetop":
